@@ -536,7 +536,9 @@ class Interp(object):
             else:
                 x = annot.element(self, env, seq, i)
             if annot.on_element:
-                annot.on_element(self, env, seq, i, x)
+                x2 = annot.on_element(self, env, seq, i, x)
+                if x2 is not None:
+                    x = x2
             self.assign(s.target, x, env)
             try:
                 yield from self.exec_block(s.body, env)
